@@ -108,7 +108,7 @@ func c03R2(c *Ctx, id string) {
 			var user *ssa.Call
 			eachInstr(fn, func(in ssa.Instruction) {
 				if call, ok := in.(*ssa.Call); ok {
-					if p, isP := call.Call.Value.(*ssa.Parameter); isP && p.Name() == "fn" {
+					if p, isP := call.Call.Value.(*ssa.Parameter); isP && isFuncTyped(p) {
 						user = call
 					}
 				}
